@@ -328,8 +328,13 @@ var hostile = map[string][]string{
 		"data: {\"choices\":[{\"delta\":{\"content\":\"cr only\"}}]}\r\rdata: [DONE]\r",
 		"event: error\ndata: {\"error\":{\"message\":\"overloaded\"}}\n\n", "data: {\"error\":{\"message\":\"boom\",\"type\":\"server_error\"}}\n\n", "retry: 10\nid: 5\n: c\n\n",
 		"data: {\"choices\":[{\"delta\":{\"content\":\"" + longA + "\"}}]}\n\n", // > 1 MiB line: scanner error
-		"data: " + longA[:1<<20-7] + "\n",                                       // line of exactly the scanner maximum - 1
-		"data: " + longA[:1<<20-6] + "\n",                                       // exactly the maximum
+		// the oversize line after output has already started (text, tool call), and between valid chunks
+		"data: {\"choices\":[{\"delta\":{\"role\":\"assistant\",\"content\":\"hi\"}}]}\n\ndata: {\"choices\":[{\"delta\":{\"content\":\"" + longA + "\"}}]}\n\ndata: [DONE]\n\n",
+		"data: {\"choices\":[{\"delta\":{\"tool_calls\":[{\"index\":0,\"id\":\"a\",\"function\":{\"name\":\"f\",\"arguments\":\"\"}}]}}]}\n\ndata: {\"choices\":[{\"delta\":{\"tool_calls\":[{\"index\":0,\"function\":{\"arguments\":\"{\\\"p\\\":\\\"" + longA + "\\\"}\"}}]}}]}\n\ndata: {\"choices\":[{\"delta\":{},\"finish_reason\":\"tool_calls\"}]}\n\ndata: [DONE]\n\n",
+		"data: {\"choices\":[{\"delta\":{\"content\":\"hi\"}}]}\n\n" + longA + longA + "\n\ndata: {\"choices\":[{\"delta\":{\"content\":\"after\"}}]}\n\ndata: [DONE]\n\n",
+		"data: {\"choices\":[{\"delta\":{\"content\":\"hi\"}}]}\n\ndata: " + longA + longA + longA, // never ends its line
+		"data: " + longA[:1<<20-7] + "\n", // line of exactly the scanner maximum - 1
+		"data: " + longA[:1<<20-6] + "\n", // exactly the maximum
 		strings.Repeat("data: {\"choices\":[{\"delta\":{\"content\":\"x\"}}]}\n\n", 20000),
 		strings.Repeat("\n", 100000), strings.Repeat("data: \n", 50000), "data: " + deepArr + "\n\n", "data: {\"choices\":" + deepArr + "}\n\n",
 		"\x00data: {}\n", "data: {}\x00\n", bom + "data: {\"choices\":[{\"delta\":{\"content\":\"bom\"}}]}\n\n", "DATA: {}\n\n", " data: {}\n\n", "data:\t{}\n\n",
